@@ -6,6 +6,7 @@ import (
 	"bufio"
 	"fmt"
 	"os"
+	"strconv"
 	"strings"
 
 	"github.com/postalsys/muti-metroo/internal/config"
@@ -125,6 +126,12 @@ func init() {
 					}
 				}
 			}
+		},
+		Facts: func(w *bufio.Writer) {
+			fmt.Fprintf(w, "-- GENERATED from /repo internal/config (envVarRegex.String()) by `harness c37 facts`. Do not edit.\n")
+			fmt.Fprintf(w, "namespace MM.Gen.C37\n")
+			fmt.Fprintf(w, "/-- source text of the compiled pattern -/\ndef pattern : String := %s\n", strconv.Quote(config.C37EnvVarPattern()))
+			fmt.Fprintf(w, "end MM.Gen.C37\n")
 		},
 	})
 }
